@@ -170,7 +170,13 @@ def parse_verus(run, text, blocks, linemap):
             if 'arithmetic' in msg or 'overflow' in msg or 'underflow' in msg or 'bit shift' in msg or 'division' in msg:
                 tags = {'C08'}; kind = 'arithmetic'
             elif bi is not None:
-                tags = set(blocks[bi]['tags']); kind = 'untagged'
+                # an inserted proof hint (assert / lemma precondition) or an untagged clause failed. Verus assumes a failed
+                # hint for the rest of the body, so the contract clauses that depended on it are not re-reported: attribute
+                # a failed HINT to every property the function's clauses serve, an untagged CLAUSE to the function's own tags.
+                is_hint = ('assertion failed' in msg) or ('precondition not satisfied' in msg and not any(
+                    X.TAGS.search(lines[ln - 1]) for ln, _, _ in sp_lines if 0 < ln <= len(lines)))
+                tags = set(blocks[bi].get('all_tags', blocks[bi]['tags'])) if is_hint else set(blocks[bi]['tags'])
+                kind = 'hint' if is_hint else 'untagged'
         fn = (blocks[bi]['owner'] + '::' + blocks[bi]['name']) if bi is not None else None
         res['diags'].append(dict(message=msg, fn=fn, block=bi, line=prim, kind=kind, tags=sorted(tags),
                                  clause=[lines[ln - 1].strip() for ln in clause_lines] or [lines[prim - 1].strip()],
@@ -334,6 +340,29 @@ def is_known(known, prop, unit, d):
 # main
 # ----------------------------------------------------------------------------------------------
 
+def matrix(a):
+    """development aid: run every unit ONCE against --repo and print one verdict line per claimed property
+    (no evidence is written, no replay files). Used by the mutation / seeded sensitivity passes."""
+    build = os.path.join(VERIF, 'build', 'MATRIX-' + hashlib.sha256(a.repo.encode()).hexdigest()[:8])
+    shutil.rmtree(build, ignore_errors=True); os.makedirs(build)
+    results = []
+    with cf.ThreadPoolExecutor(max_workers=8) as ex:
+        futs = [ex.submit(verus_unit, n, c, a.repo, build, a.tier) for n, c in U.VERUS_UNITS.items()]
+        futs += [ex.submit(kani_unit, n, c, a.repo, build, a.tier, None) for n, c in U.KANI_UNITS.items()]
+        for f in futs: results.append(f.result())
+    known, _ = load_known()
+    props = sorted(set(U.CLAIMS))
+    for prop in props:
+        mine = [r for r in results if prop in (U.VERUS_UNITS.get(r['unit']) or U.KANI_UNITS.get(r['unit']))['props']]
+        v = [(r, d) for r in mine for d in r['diags'] if prop in d['tags'] and not is_known(known, prop, r['unit'], d)]
+        und = [r for r in mine if r['status'] != 'ok']
+        rc = 1 if v else (2 if und else 0)
+        detail = ('%s fn=%s %s :: %s' % (v[0][0]['unit'], v[0][1]['fn'], v[0][1]['message'], ' | '.join(v[0][1]['clause'])[:160])) if v else (und[0]['reason'][:200] if und else '')
+        print('MATRIX %s %d %s' % (prop, rc, detail.replace('\n', ' ')))
+    shutil.rmtree(build, ignore_errors=True)
+    sys.exit(0)
+
+
 def main():
     ap = argparse.ArgumentParser()
     ap.add_argument('prop')
@@ -349,6 +378,8 @@ def main():
             print('  obligation: unit=%s fn=%s %s :: %s' % (o['unit'], o['function'], o['message'], ' | '.join(o['obligation'])[:300]))
         if rp.get('failing_input'): print('  failing input: %s' % json.dumps(rp['failing_input'])[:2000])
         print('re-running the obligations on the current tree ...')
+    if a.prop == 'MATRIX':
+        return matrix(a)
     prop = a.prop
     seed = int(os.environ.get('VERIF_SEED', '0') or 0)
     t0 = time.time()
